@@ -49,7 +49,6 @@ theorem swapStep_trace (x : Nat) (s : St) : swapStep (s.setTrace x) = (swapStep 
     have := findTroughRow_trace x ⟨trace, tr, trv, invertSign trv, tr, trv, real, invertRow real trv⟩
     simp only [St.setTrace] at this ⊢
     rw [this]
-    cases findTroughRow ⟨trace, tr, trv, invertSign trv, tr, trv, real, invertRow real trv⟩ <;> rfl
   · rfl
 
 theorem rowTail_trace (k T x : Nat) (s : St) : rowTail k T (s.setTrace x) = (rowTail k T s).map (Feat.setTrace x) := by
